@@ -84,6 +84,73 @@ func checkC36(c *Check) {
 		ok := strings.Contains(txt, "loop for over= count=false cond=(#0 < item.memoryWaiters.Len())") && regexp.MustCompile(`call CircularSlice\.Front recv=item\.memoryWaiters\(\) -> \[\$\]\n\s+if !item\.tryAcquireMemoryForTheFirst\(\$\)\n\s+return`).MatchString(txt)
 		c.Ob("udp/memory-waiters-fifo", "Transport.checkMemoryWaiters", ok, r.pos(ir.Info.Decl.Pos()), "waiters are admitted from the front until the first that does not fit")
 	}
+	// (1c) the datagram header handed to the write side acknowledges only chunks that were stored
+	if ir := r.ir(P + "IncomingConnection.ReceiveDatagram"); ir != nil {
+		// the local holding receiveMessageChunk's result
+		recvLocal := ""
+		walkBlock(ir.Body, nil, func(nd Node, _ []Guard) {
+			if cn, ok := nd.(*CallN); ok && cn.Fn != nil && cn.Fn.Name() == "receiveMessageChunk" && len(cn.Results) == 1 {
+				recvLocal = cn.Results[0]
+			}
+		})
+		// assignments of locals with their guards (initialisations outside any loop are allowed)
+		type asg struct {
+			guards []Guard
+			rhs    string
+		}
+		assigns := map[string][]asg{}
+		walkBlock(ir.Body, nil, func(nd Node, gs []Guard) {
+			if as, ok := nd.(*AssignN); ok {
+				for i, l := range as.LHS {
+					rhs := ""
+					if i < len(as.RHS) {
+						rhs = as.RHS[i]
+					}
+					assigns[l] = append(assigns[l], asg{gs, as.Tok.String() + " " + rhs})
+				}
+			}
+		})
+		localRx := regexp.MustCompile(`L\d+:\w+`)
+		var judge func(expr string, depth int) (bool, string)
+		judge = func(expr string, depth int) (bool, string) {
+			for _, l := range localRx.FindAllString(expr, -1) {
+				for _, a := range assigns[l] {
+					inLoop, underRecv := false, false
+					for _, g := range a.guards {
+						if g.Kind == "loop" {
+							inLoop = true
+						}
+						if g.Kind == "if" && recvLocal != "" && strings.Contains(g.Text, recvLocal) {
+							underRecv = true
+						}
+					}
+					if inLoop && !underRecv {
+						return false, l + " is updated in the chunk loop outside `if " + recvLocal + "` (" + a.rhs + ")"
+					}
+					if !inLoop && depth < 3 && localRx.MatchString(a.rhs) && strings.HasPrefix(a.rhs, "= ") {
+						if ok, why := judge(a.rhs, depth+1); !ok {
+							return false, why
+						}
+					}
+				}
+			}
+			return true, ""
+		}
+		n := 0
+		walkBlock(ir.Body, nil, func(nd Node, gs []Guard) {
+			cn, ok := nd.(*CallN)
+			if !ok || cn.Fn == nil || len(cn.Args) != 1 {
+				return
+			}
+			switch cn.Fn.Name() {
+			case "SetPacketNum", "SetPacketsFrom", "SetPacketsCount":
+				n++
+				ok, why := judge(cn.Args[0], 0)
+				c.Ob("udp/ack-only-stored-chunks", "IncomingConnection.ReceiveDatagram/"+cn.Fn.Name(), ok && recvLocal != "", r.pos(cn.Pos), "the range written back into the header (which the write side acknowledges) is computed only from sequence numbers recorded when receiveMessageChunk stored the chunk: "+orStr(why, "operands "+cn.Args[0]))
+			}
+		})
+		c.Floor("udp/ack-only-stored-chunks", 3)
+	}
 	// (3) monotone prefixes
 	mono := map[string]bool{"AcksToSend.ackPrefix": true, "IncomingConnection.ackPrefix": true, "OutgoingConnection.ackSeqNoPrefix": true}
 	for _, fi := range fis {
